@@ -91,7 +91,7 @@ func (w *vWorld) prepRaceOp(op int) func() {
 	}
 }
 
-// BOUND: topology T1 (quick) or any of the 4 topologies (thorough); pre-state: one IP allocated (quick) or any subset of IPs allocated with owner key over 5 keys, policy 0..2, uid, node symbolic (thorough); every unordered pair of entry points out of 17 (9 mutators incl. ConfigurePool, 6 queries, metrics Collect, reservation watch events) with arguments drawn from the topology, run as two logical threads; shared cells = everything reachable from the crdIpam instance before the concurrent phase plus the package-level variables of the module
+// BOUND: topology T1 (quick) or any of the 4 topologies (thorough); pre-state: the first IP allocated (quick) or none / the first / all IPs allocated (thorough); every unordered pair of entry points out of 17 (9 mutators incl. ConfigurePool, 6 queries, metrics Collect, reservation watch events) with arguments drawn from the topology, run as two logical threads; shared cells = everything reachable from the crdIpam instance before the concurrent phase plus the package-level variables of the module
 // ASSUME: lock-set discipline: happens-before edges other than mutexes are ignored (candidates are confirmed with the Go race detector before being reported); memory allocated during the concurrent phase and published to the other thread is not tracked; accesses inside the standard library's and dependencies' own internals are tracked only when they go through Go loads/stores the engine executes
 func VerifC19_q_ipamPairs() {
 	topo := 0
@@ -99,14 +99,19 @@ func VerifC19_q_ipamPairs() {
 		topo = nondetChoice(VNumTopologies)
 	}
 	w := vNewWorld(topo)
-	if verifTier() > 0 {
-		w.symbolicStore(true)
-	}
 	if err := w.configure(); err != nil {
 		panic(err)
 	}
-	if verifTier() == 0 {
-		if err := w.ipam.AllocateSpecificIP(vKeys[0], net.ParseIP(w.ips[0]), Attr{NodeName: "n1", Uid: "u1"}); err != nil {
+	// pre-state: quick: the first IP allocated; thorough: none, the first, or all IPs allocated (to different keys)
+	pre := 1
+	if verifTier() > 0 {
+		pre = nondetChoice(3)
+	}
+	for n, ip := range w.ips {
+		if pre == 0 || pre == 1 && n > 0 {
+			break
+		}
+		if err := w.ipam.AllocateSpecificIP(vKeys[(n*2)%len(vKeys)], net.ParseIP(ip), Attr{NodeName: "n1", Uid: "u1"}); err != nil {
 			panic(err)
 		}
 	}
